@@ -26,7 +26,7 @@ impl BracketAtom {
     fn matches_multi_character(&self) -> bool {
         match self {
             BracketAtom::CollatingSymbol(value) | BracketAtom::EquivalenceClass(value) => {
-                value.len() > 1
+                value.chars().nth(1).is_some()
             }
             _ => false,
         }
@@ -36,11 +36,23 @@ impl BracketAtom {
         match self {
             BracketAtom::Char(c) => return BracketAtom::fmt_regex_char(*c, regex),
             BracketAtom::CollatingSymbol(value) | BracketAtom::EquivalenceClass(value) => {
-                if !value.is_empty() {
-                    regex.write_str(value)
-                } else {
+                if value.is_empty() {
                     return Err(Error::EmptyCollatingSymbol);
                 }
+                // A multi-character value is written outside a bracket
+                // expression, where different characters need escaping.
+                let in_bracket = !self.matches_multi_character();
+                for c in value.chars() {
+                    if in_bracket {
+                        BracketAtom::fmt_regex_char(c, regex)?;
+                    } else {
+                        if SPECIAL_CHARS.contains(c) {
+                            regex.write_char('\\').unwrap();
+                        }
+                        regex.write_char(c).unwrap();
+                    }
+                }
+                return Ok(());
             }
             BracketAtom::CharClass(class) => {
                 if ClassAsciiKind::from_name(class).is_some() {
